@@ -2,6 +2,8 @@ package main
 
 import (
 	"fmt"
+	"go/token"
+	"go/types"
 	"strings"
 
 	"golang.org/x/tools/go/ssa"
@@ -59,7 +61,7 @@ func runC12(r *Run) {
 	r.NilArgsRule("C12.R7", "client", "jsonclient", "ct")
 
 	r.Rule("C12.R9")
-	c12RspErrNonNil(r)
+	c12RspErrCause(r)
 	// the leaf the client verifies an SCT over (rule sets of C01.R7 and C03.R8)
 	r.Shared("C12.R8", func() {
 		r.Rule("C01.R7")
@@ -139,8 +141,10 @@ func c12GetSTH(r *Run) {
 			}
 			r.ExpectFields(tf, "ToSignedTreeHead:sth", ret.Results[0], map[string]string{
 				"TreeSize": "p0.TreeSize", "Timestamp": "p0.Timestamp",
-				"TreeHeadSignature": "*" + r.D.allocName(baseAlloc(CallArgs(um[0])[1])),
 			})
+			// the signature field is what tls.Unmarshal decoded (through a local, or in place)
+			r.ExpectArg(um[0], "ToSignedTreeHead:signature.source", 0, "p0.TreeHeadSignature")
+			r.ExpectDecodedField(tf, "ToSignedTreeHead:signature.target", "ToSignedTreeHead:sth.TreeHeadSignature", ret.Results[0], "TreeHeadSignature", um[0], 1, "ct.DigitallySigned")
 			cp := r.OneCall(tf, "ToSignedTreeHead:root-copy", "copy")
 			if cp != nil {
 				r.ExpectArg(cp, "ToSignedTreeHead:root-copy.dst", 0, r.D.allocName(a)+".SHA256RootHash[:]")
@@ -301,18 +305,19 @@ func c12AddChain(r *Run) {
 		f := strings.TrimSuffix(strings.TrimPrefix(r.D.D(st.Addr), "&("+r.D.allocName(sct)), ")")
 		r.Check("addChainWithRetry:sct-frozen-after-verify"+f, !mayExecuteAfter(st, ver), r.Where(st), r.D.D(st.Addr)+" is never written once verification has run")
 	}
-	um := CallsTo(fn, "tls.Unmarshal")
-	ds := "?"
-	if len(um) == 1 && baseAlloc(CallArgs(um[0])[1]) != nil {
-		ds = "*" + r.D.allocName(baseAlloc(CallArgs(um[0])[1]))
-	}
 	r.ExpectFields(fn, "addChainWithRetry:sct", CallArgs(ver)[1], map[string]string{
 		"SCTVersion": rn + ".SCTVersion",
 		"Timestamp":  rn + ".Timestamp",
 		"Extensions": "(*base64.Encoding).DecodeString(*" + rn + ".Extensions)#0",
-		"Signature":  ds,
 		"LogID":      "*new:ct.LogID#*",
 	})
+	// the signature is what the (gated) tls.Unmarshal of the response's signature decoded: through a
+	// local that is then stored into the SCT, or in place
+	if um := CallsTo(fn, "tls.Unmarshal"); len(um) == 1 {
+		r.ExpectDecodedField(fn, "addChainWithRetry:signature.target", "addChainWithRetry:sct.Signature", CallArgs(ver)[1], "Signature", um[0], 1, "ct.DigitallySigned")
+	} else {
+		r.Fail("addChainWithRetry:sct.Signature", r.Where(ver), fmt.Sprintf("undecided: expected exactly one tls.Unmarshal in addChainWithRetry, found %d", len(um)))
+	}
 	for _, st := range r.StoresTo(fn, "&("+r.D.allocName(sct)+".LogID)") {
 		if id := baseAlloc(st.Val); id != nil {
 			found := false
@@ -328,7 +333,39 @@ func c12AddChain(r *Run) {
 	}
 	// what is submitted is the chain that is verified
 	r.ExpectStores(fn, "addChainWithRetry:request.chain", "&("+r.D.allocName(req)+".Chain)", "append("+r.D.allocName(req)+".Chain, *)", 1)
-	r.ExpectStores(fn, "addChainWithRetry:request.link", "new:ct.ASN1Cert#*", "p4[*]", 1)
+	// … and every element appended is chain[i].Data for the loop's own i, whether the link is read
+	// through the range copy or by indexing the chain
+	nl := 0
+	for _, st := range r.StoresTo(fn, "&("+r.D.allocName(req)+".Chain)") {
+		ap, ok := st.Val.(*ssa.Call)
+		if !ok || len(ap.Call.Args) != 2 {
+			continue // not an append: reported by request.chain
+		}
+		sl, ok := ap.Call.Args[1].(*ssa.Slice)
+		var arr *ssa.Alloc
+		if ok {
+			arr, _ = sl.X.(*ssa.Alloc)
+		}
+		if arr == nil || sl.Low != nil || sl.High != nil {
+			r.Fail("addChainWithRetry:request.link", r.Where(st), "undecided: the appended elements "+r.D.D(ap.Call.Args[1])+" are not listed at the append")
+			continue
+		}
+		for _, es := range storesInto(fn, arr) {
+			nl++
+			got := r.loadTerm(fn, es.Val)
+			linked := r.Check("addChainWithRetry:request.link", glob("p4[it@*].Data", got) && strings.Count(got, "it@") == 1 && es.Block() == st.Block(), r.Where(es),
+				"request chain element ← "+got+" (expected p4[it@*].Data: the i-th certificate of the chain that is verified)")
+			// the counter runs up to the length of that chain
+			if linked {
+				it := got[len("p4["):strings.Index(got, "]")]
+				_, bounded := r.D.AtomsOf(fn)["ord("+it+", len(p4))"]
+				r.Check("addChainWithRetry:request.all-links", bounded, r.Where(es), "the loop over "+it+" is bounded by len(p4), the length of the chain that is verified")
+			}
+		}
+	}
+	if nl == 0 {
+		r.Fail("addChainWithRetry:request.link", r.FnPos(fn), "no element is appended to the request chain")
+	}
 }
 
 // ---- R3 ---------------------------------------------------------------------------
@@ -385,4 +422,114 @@ func c12LogID(r *Run) {
 	}
 	r.Check("addChainWithRetry:log-id-bound-to-key", found != "", where,
 		"an SCT is returned only if its log ID passed a test against the configured key: "+map[bool]string{true: found, false: "no branch condition on the submission path looks at resp.ID / sct.LogID — copy(logID.KeyID[:], resp.ID) is unchecked, so an SCT naming a foreign log (or a short, zero-padded ID) is returned by a client that holds the key; the ID is not part of the signed input, so signature verification does not cover it"}[found != ""])
+}
+
+// ---- R9 ---------------------------------------------------------------------------
+
+// nilValuation: what the branch conditions of fn that look at the value v itself evaluate to when
+// v is nil — `v == nil` / `v != nil` (atom nil?v = nil) and x509.IsFatal(v) (false for a nil
+// error). The conditions are found by SSA operand identity, so the atom keys are the ones the walk
+// computes whatever the rendering of v is.
+func (r *Run) nilValuation(fn *ssa.Function, v ssa.Value) Sigma {
+	same := func(x ssa.Value) bool {
+		for i := 0; i < 4 && x != nil; i++ {
+			if x == v {
+				return true
+			}
+			switch y := x.(type) {
+			case *ssa.ChangeInterface:
+				x = y.X
+			case *ssa.ChangeType:
+				x = y.X
+			default:
+				return false
+			}
+		}
+		return false
+	}
+	s := Sigma{}
+	var visit func(c ssa.Value, depth int)
+	visit = func(c ssa.Value, depth int) {
+		if depth > 6 {
+			return
+		}
+		switch x := c.(type) {
+		case *ssa.Phi:
+			for _, e := range x.Edges {
+				visit(e, depth+1)
+			}
+		case *ssa.UnOp:
+			if x.Op == token.NOT {
+				visit(x.X, depth+1)
+			}
+		case *ssa.BinOp:
+			if (x.Op == token.EQL || x.Op == token.NEQ) && (isNilConst(x.X) && same(x.Y) || isNilConst(x.Y) && same(x.X)) {
+				if ci := r.D.Classify(x); ci.Kind == "nil" {
+					s[ci.Key] = "nil"
+				}
+			}
+		case *ssa.Call:
+			if f := x.Call.StaticCallee(); f != nil && FuncName(f) == "x509.IsFatal" && len(x.Call.Args) == 1 && same(x.Call.Args[0]) {
+				if ci := r.D.Classify(x); ci.Kind == "bool" {
+					s[ci.Key] = "F" // nil is never fatal
+				}
+			}
+		}
+	}
+	for _, b := range fn.Blocks {
+		if len(b.Instrs) == 0 {
+			continue
+		}
+		if ifi, ok := b.Instrs[len(b.Instrs)-1].(*ssa.If); ok {
+			visit(ifi.Cond, 0)
+		}
+	}
+	return s
+}
+
+// c12RspErrCause: an RspError built on a failure path carries the error of that failure — the
+// value stored into RspError.Err is a constructed error, or a value the literal cannot be reached
+// with when it is nil.
+func c12RspErrCause(r *Run) {
+	n := 0
+	for _, fn := range r.P.ModFuncs {
+		pk := fnPkg(fn)
+		if pk == nil || (ShortPkg(pk.Path()) != "client" && ShortPkg(pk.Path()) != "jsonclient") || len(fn.Blocks) == 0 {
+			continue
+		}
+		fn := fn
+		eachInstr(fn, func(in ssa.Instruction) {
+			st, ok := in.(*ssa.Store)
+			if !ok {
+				return
+			}
+			fa, ok := st.Addr.(*ssa.FieldAddr)
+			if !ok {
+				return
+			}
+			f := fieldOf(fa)
+			if f == nil || f.Name() != "Err" {
+				return
+			}
+			pt, ok := fa.X.Type().Underlying().(*types.Pointer)
+			if !ok || TypeName(types.Unalias(pt.Elem())) != "jsonclient.RspError" {
+				return
+			}
+			n++
+			key := "RspError.Err:" + short(FuncName(fn)) + ":" + shortErr(r.D.D(st.Val))
+			switch errKind(st.Val) {
+			case "non":
+				r.Pass(key, r.Where(st), "Err is a constructed error")
+			case "nil":
+				r.Fail(key, r.Where(st), "RspError.Err is the nil constant: Error() dereferences it")
+			default:
+				s := r.nilValuation(fn, st.Val)
+				reach := r.D.Walk(fn, s, nil, nil)
+				r.Valuations++
+				r.Check(key, len(s) > 0 && !reach.Has(st), r.Where(st), "RspError.Err ← "+r.D.D(st.Val)+": this value is provably non-nil here (the literal is unreachable when it is nil, under "+s.String()+"); otherwise the caller gets an RspError without a cause and Error() panics")
+			}
+			r.Funcs[FuncName(fn)] = true
+		})
+	}
+	r.Floor("RspError literals", n, 10)
 }
